@@ -27,11 +27,12 @@ SPEC = dict(
                 "manifest and the complete output whose rows cover the input's (tags,time) keys. C09_full_partial: for ALL partitions whose "
                 "metadata-carrying files declare one tag set, ALL histories of cycles with crashes and torn uploads at every storage mutation and "
                 "kills before the first/after the last mutation, one later fault-free cycle leaves no manifest and the visible rows are a collapse "
-                "of the original ones (sub-multiset, every key kept; exact multiset when no file carries dedup metadata). C09_full_fixed / "
-                "C09_full_generated: the same for ALL kill positions once the retry path recovers the dead job's manifest (fact "
-                "retryConsultsManifests). C09_full_witness and C09_level_witness are the two input classes on which the CURRENT tree violates "
-                "the property (both reproduced on the real code by the harness): duplicates after kill + adaptive half-batch retry; row loss when a "
-                "job dedups at a coarser tag union than a legacy/compacted input needs. C09_batches: SplitCandidateIntoBatches partitions the file "
+                "of the original ones (sub-multiset, every key kept; exact multiset when no file carries dedup metadata). C09_full (in force since "
+                "/repo a5dca86; consumes the regenerated fact retryConsultsManifests=true): the same for ALL kill positions, because CompactPartition "
+                "now settles a failed job's manifest before compactFilesAdaptively retries the halves; C09_full_witness shows the fact is necessary "
+                "(duplicates without it; the harness duplicate monitors stay live). C09_level_witness is the one input class on which the CURRENT tree "
+                "still violates the property (known finding, reproduced on the real code): row loss when a job dedups at a coarser tag union than a "
+                "legacy/compacted input needs; hence the carve-out UniformLevel. C09_batches: SplitCandidateIntoBatches partitions the file "
                 "list. DuckDB's dedup is the hypothesis DedupSpec (never an axiom); the model is diffed against the real Manager/Job/recovery "
                 "in-process under crash/kill/torn-upload/recovery-error injection, rows compared by DuckDB scans."),
     technique="Lean 4 invariant proof over an executable model of the compaction cycle (job program and manifest recovery regenerated from Job.Run / recoverManifest), differential correspondence against the real Manager/Job with crash and kill injection",
